@@ -25,7 +25,6 @@ Lemma idiv_ok t : WT t -> forall x y, in_ty t x = true -> in_ty t y = true -> y 
   in_ty t (Z.quot x y) = true -> idiv_m t x y = Ok (idiv_spec x y).
 Proof.
   intros HT x y Hx Hy Hy0 Hq.
-  pose proof (quot_cases x y Hy0) as Hc.
   assert (Hr : Z.abs (Z.rem x y) < Z.abs y /\ (0 <= x -> 0 <= Z.rem x y) /\ (x <= 0 -> Z.rem x y <= 0)).
   { pose proof (Z.rem_bound_abs x y Hy0). 
     split; [lia|]. split; intros.
@@ -35,5 +34,144 @@ Proof.
   set (q := x ÷ y) in *. set (r := Z.rem x y) in *. clearbody q r.
   types t HT; range Hx; range Hy; range Hq; unfold arith; widths;
     (destruct (Z.eqb_spec y 0) as [?|_]; [contradiction|]); run;
-    rewrite ?cast_eq by (cbn; lia); widths; consts; ifs; try lia; repeat f_equal; lia.
+    rewrite ?cast_eq, ?wu_eq by (cbn; lia); widths; consts; ifs; try lia; repeat f_equal; lia.
+Qed.
+
+(** ipow: base^e for e >= 0 whenever the power is representable *)
+
+(* powers below a representable power are representable *)
+Lemma abs_pow_le b j e : 1 <= Z.abs b -> 0 <= j <= e -> Z.abs (b ^ j) <= Z.abs (b ^ e).
+Proof.
+  intros Hb Hj. rewrite !Z.abs_pow. apply Z.pow_le_mono_r; lia.
+Qed.
+
+Lemma abs_pow_half b j e : 2 <= Z.abs b -> 0 <= j < e -> 2 * Z.abs (b ^ j) <= Z.abs (b ^ e).
+Proof.
+  intros Hb Hj.
+  assert (H1 : Z.abs (b ^ (j + 1)) <= Z.abs (b ^ e)) by (apply abs_pow_le; lia).
+  rewrite Z.pow_add_r, Z.pow_1_r, Z.abs_mul in H1 by lia.
+  assert (0 <= Z.abs (b ^ j)) by lia. nia.
+Qed.
+
+Lemma pow_in_ty t b j e : WT t -> in_ty t b = true -> in_ty t (b ^ e) = true -> 0 <= j <= e ->
+  in_ty t (b ^ j) = true.
+Proof.
+  intros HT Hb He Hj.
+  destruct (Z.eq_dec j e) as [->|Hne]; [assumption|].
+  destruct (Z.eq_dec j 0) as [->|Hj0]; [rewrite Z.pow_0_r; now apply in_ty_1|].
+  destruct (Z.eq_dec b 0) as [->|Hb0]; [rewrite Z.pow_0_l by lia; now apply in_ty_0|].
+  destruct (Z.eq_dec b 1) as [->|Hb1]; [rewrite Z.pow_1_l by lia; now apply in_ty_1|].
+  destruct (Z.eq_dec b (-1)) as [->|Hbm].
+  { assert (A : Z.abs ((-1) ^ j) = 1) by (rewrite Z.abs_pow; apply Z.pow_1_l; lia).
+    types t HT; range Hb; try lia; apply in_ty_range; consts; lia. }
+  assert (A : 2 * Z.abs (b ^ j) <= Z.abs (b ^ e)) by (apply abs_pow_half; lia).
+  assert (P : 0 <= b -> 0 <= b ^ j) by (intros; apply Z.pow_nonneg; lia).
+  types t HT; range Hb; range He; apply in_ty_range; consts; lia.
+Qed.
+
+Lemma ipow_loop_ok t b e : WT t -> in_ty t b = true -> in_ty t e = true ->
+  (forall j, 0 <= j <= e -> in_ty t (b ^ j) = true) ->
+  forall n i, 0 <= i <= e -> n = Z.to_nat (e - i) ->
+  ipow_loop n t b e i (b ^ i) = Ok (b ^ e).
+Proof.
+  intros HT Hb He Hpow n.
+  induction n as [|n IH]; intros i Hi Hn.
+  - assert (i = e) by lia. subst i. cbn [ipow_loop]. now rewrite Z.ltb_irrefl.
+  - cbn [ipow_loop]. destruct (Z.ltb_spec i e) as [L|L]; [|lia].
+    assert (Hp : b ^ i * b = b ^ (i + 1)) by (rewrite Z.pow_add_r, Z.pow_1_r by lia; reflexivity).
+    rewrite Hp, (arith_ok t (b ^ (i + 1))) by (auto; apply Hpow; lia).
+    cbn [rbind].
+    assert (Hi1 : in_ty t (i + 1) = true).
+    { apply in_ty_range. apply in_ty_range in He.
+      assert (imin t <= 0) by (unfold imin, smin; destruct (sgn t); [assert (0 < 2 ^ (bits t - 1)) by (apply Z.pow_pos_nonneg; (wcases HT; lia)); lia | lia]).
+      lia. }
+    rewrite (arith_ok t (i + 1)) by auto. cbn [rbind].
+    rewrite !cast_id by (auto; apply Hpow; lia).
+    apply IH; lia.
+Qed.
+
+Lemma ipow_ok t : WT t -> forall b e, in_ty t b = true -> in_ty t e = true -> 0 <= e ->
+  in_ty t (b ^ e) = true -> ipow_m t b e = Ok (ipow_spec b e).
+Proof.
+  intros HT b e Hb He H0 Hp. unfold ipow_m, ipow_spec.
+  change 1 with (b ^ 0).
+  apply ipow_loop_ok; auto; try lia.
+  intros j Hj. now apply (pow_in_ty t b j e).
+Qed.
+
+(* a negative exponent never enters the loop: the result is 1 (outside the documented domain) *)
+Lemma ipow_negative t b e : e <= 0 -> ipow_m t b e = Ok 1.
+Proof.
+  intros He. unfold ipow_m. replace (Z.to_nat e) with O by lia. cbn [ipow_loop].
+  destruct (Z.ltb_spec 0 e); [lia|reflexivity].
+Qed.
+
+(** ipow<2>(e) = 2^e *)
+Lemma ipow2_ok t : WT t -> forall e, 0 <= e -> in_ty t (2 ^ e) = true -> ipow2_m t e = Ok (ipow_spec 2 e).
+Proof.
+  intros HT e H0 Hp. unfold ipow2_m, ipow_spec, shl.
+  assert (He : e < bits t).
+  { apply in_ty_range in Hp. apply (Z.pow_lt_mono_r_iff 2); try lia.
+    - (wcases HT; lia).
+    - assert (imax t < 2 ^ bits t); [|lia].
+      unfold imax, smax, umax. destruct (sgn t); [|lia].
+      assert (2 ^ (bits t - 1) < 2 ^ bits t); [|lia].
+      apply Z.pow_lt_mono_r; (wcases HT; lia). }
+  rewrite Z.shiftl_1_l.
+  assert (Hb : bits t <= bits (promote t)).
+  { unfold promote. destruct (Z.ltb_spec (bits t) 32); cbn; lia. }
+  replace ((0 <=? e) && (e <? bits (promote t))) with true by lia.
+  cbn [rbind]. f_equal.
+  assert (Hc : cast (promote t) (2 ^ e) = 2 ^ e).
+  { types t HT; range Hp; widths; unfold cast; cbn [sgn bits];
+      first [apply ws_small | apply wu_small]; consts; try lia. Show. }
+  rewrite Hc. now apply cast_id.
+Qed.
+
+(** ilog2: floor(log2 x) for x >= 1 *)
+Lemma ilog2_loop_ok t : WT t -> forall n x r, 1 <= x -> in_ty t x = true -> 0 <= r ->
+  r + Z.log2 x <= 63 -> (Z.log2 x < Z.of_nat n) ->
+  ilog2_loop n t x r = Ok (r + Z.log2 x).
+Proof.
+  intros HT n. induction n as [|n IH]; intros x r Hx Hin Hr Hsum Hn.
+  - pose proof (Z.log2_nonneg x). lia.
+  - cbn [ilog2_loop]. destruct (Z.gtb_spec x 1) as [G|G].
+    + unfold shr.
+      assert (Hb : 1 < bits (promote t)).
+      { unfold promote. destruct (Z.ltb_spec (bits t) 32); cbn; (wcases HT; lia). }
+      replace ((0 <=? 1) && (1 <? bits (promote t))) with true by lia.
+      cbn [rbind].
+      assert (Hh : Z.shiftr x 1 = x / 2) by (rewrite Z.shiftr_div_pow2 by lia; reflexivity).
+      assert (Hl : Z.log2 (x / 2) = Z.log2 x - 1).
+      { rewrite <- Hh, Z.log2_shiftr by lia. pose proof (Z.log2_pos x). lia. }
+      assert (Hin2 : in_ty t (x / 2) = true).
+      { apply in_ty_range. apply in_ty_range in Hin.
+        assert (imin t <= 0) by (pose proof (in_ty_0 t HT) as Z0; apply in_ty_range in Z0; lia).
+        assert (0 <= x / 2 <= x) by lia. lia. }
+      assert (Hr1 : in_ty t (r + 1) = true).
+      { pose proof (Z.log2_pos x). apply in_ty_range. types t HT; consts; lia. }
+      rewrite (arith_ok t (r + 1)) by auto. cbn [rbind].
+      rewrite Hh, !cast_id by auto.
+      rewrite IH; try lia; auto.
+      * f_equal. lia.
+    + assert (x = 1) by lia. subst x. cbn. f_equal. lia.
+Qed.
+
+Lemma ilog2_ok t : WT t -> forall x, 1 <= x -> in_ty t x = true -> ilog2_m t x = Ok (ilog2_spec x).
+Proof.
+  intros HT x Hx Hin. unfold ilog2_m, ilog2_spec.
+  assert (Hl : Z.log2 x < bits t).
+  { apply Z.log2_lt_pow2; try lia. apply in_ty_range in Hin.
+    assert (imax t < 2 ^ bits t); [|lia].
+    types t HT; consts; lia. }
+  rewrite (ilog2_loop_ok t HT _ x 0); auto; try lia.
+  - (wcases HT; lia).
+  - (wcases HT; lia).
+Qed.
+
+(* values below 1 leave the loop at once: the result is 0 (outside the documented domain) *)
+Lemma ilog2_nonpositive t x : x <= 1 -> ilog2_m t x = Ok 0.
+Proof.
+  intros Hx. unfold ilog2_m. destruct (Z.to_nat (bits t)); cbn [ilog2_loop];
+    destruct (Z.gtb_spec x 1); try lia; reflexivity.
 Qed.
